@@ -38,7 +38,8 @@ def kfFlags (c : GenCfg) : List (String × GenCfg) :=
   (if c.strAppendsOld then [("assign-str-appends", { c with strAppendsOld := false })] else []) ++
   (if c.setLostUpdate then [("set-lost-update", { c with setLostUpdate := false })] else []) ++
   (if c.setNilMapStorePanics then [("set-nil-map-store", { c with setNilMapStorePanics := false })] else []) ++
-  (if c.setNilLeafPtrPanics then [("set-nil-leaf-ptr", { c with setNilLeafPtrPanics := false })] else [])
+  (if c.setNilLeafPtrPanics then [("set-nil-leaf-ptr", { c with setNilLeafPtrPanics := false })] else []) ++
+  (if c.loopRootMapSkipped then [("loop-root-map-skipped", { c with loopRootMapSkipped := false })] else [])
 
 def allFixed (c : GenCfg) : GenCfg :=
   (kfFlags c).foldl (fun _acc _x => GenCfg.fixed) c
@@ -455,7 +456,87 @@ def opSet (st : St) (head pathToks srcToks modeToks outToks : List String) : Str
     | _, _, _, _, _ => "skip unresolved-input"
   | _, _ => "skip bad-record"
 
+/-- Observation of a Loop call: the groups as canonical strings (sorted for maps), and how it ended. -/
+structure LoopObs where
+  groups : List String
+  fin : String
+
+instance : BEq LoopObs := ⟨fun a b => a.groups == b.groups && a.fin == b.fin⟩
+
+def showSegKey (s : Seg) : String := hexOfBytes s.text
+
+def showObsGroup (g : ObsGroup) : String :=
+  (match g.key with | some s => showSegKey s | none => "-") ++ " " ++ g.ins ++ " " ++ g.shape ++ " " ++ showVal g.val.strip
+
+def parseObsGroup (n : Node) : List String → Option ObsGroup
+  | k :: ins :: shape :: rest => do
+    let key : Option Seg ← if k == "-" then some none else (parseSeg k).map some
+    let (v, _) ← parseVal rest
+    let _ := n
+    pure { key := key, ins := ins, shape := shape, val := v }
+  | _ => none
+
+def modelGroupStr (g : LoopGroup) : String :=
+  (match g.key with | some t => hexOfBytes t | none => "-") ++ " " ++ g.ins ++ " " ++ shapeOf g.node ++ " " ++ showVal g.val.strip
+
+def finStr : LoopEnd → String
+  | .done => "done" | .panic => "panic" | .err => "err"
+
+/-- Float text oracle for map keys: taken from the key texts the implementation produced (the harness
+annotates them with ParseFloat); the model looks a float key up by value. -/
+def ftextOf (gs : List ObsGroup) (v : Val) : Bytes :=
+  match v with
+  | .float fx =>
+    (match gs.find? (fun g => match g.key with | some s => s.pf == .ok fx | none => false) with
+     | some g => (match g.key with | some s => s.text | none => [])
+     | none => strBytes "?")
+  | _ => []
+
+/-- L <tid> <form> <vid> | <path> | <wantkey bits> <ctl digits> | <fin> <mut> <n> | group | group … -/
+def opLoop (st : St) (parts : List (List String)) : String :=
+  match parts with
+  | [_, tid, form, vid] :: pathToks :: [wk, ck] :: [fin, _mut, _cnt] :: groupToks =>
+    match st.types[tid]?, st.vals[vid]?, parseForm form, parsePath pathToks with
+    | some n, some v, some f, some (p, _) =>
+      let sc : LoopScript := { wantKey := wk.toList.map (· == '1'), ctl := ck.toList.map (fun c => c.toNat - 48) }
+      (match groupToks.mapM (parseObsGroup n) with
+       | some gs =>
+         let ftext := ftextOf gs
+         let isMap := loopsMap n v p
+         let implStrs := gs.map showObsGroup
+         let canonL (l : List String) : List String := if isMap then l.toArray.qsort (· < ·) |>.toList else l
+         let impl : LoopObs := { groups := canonL implStrs, fin := fin }
+         let model (c : GenCfg) : LoopObs :=
+           let r := loopM c sc ftext n f v p
+           let ms := r.groups.map modelGroupStr
+           if isMap then
+             -- order is free: after a Break any `count` entries may have been visited. If what the
+             -- implementation visited is a sub-multiset of the right size, the model visits the same.
+             let all := (loopM c { sc with ctl := [0] } ftext n f v p).groups.map modelGroupStr
+             let sub := implStrs.length == ms.length &&
+               (implStrs.foldl (fun (acc : Option (List String)) g => acc.bind fun l => if l.contains g then some (l.erase g) else none) (some all)).isSome
+             { groups := canonL (if sub then implStrs else ms), fin := finStr r.fin }
+           else { groups := ms, fin := finStr r.fin }
+         let accImpl : Bool :=
+           match rootOf f with
+           | .ok => loopAccepts sc n v p gs (if fin == "done" then .done else if fin == "panic" then .panic else .err)
+           | _ => true
+         let m := model st.cfg
+         let shown := "; ".intercalate m.groups ++ " " ++ m.fin
+         if impl == m then
+           if accImpl then "agree"
+           else
+             let cls := (kfFlags st.cfg).filter (fun (_, c') => !(model c' == m))
+             if !cls.isEmpty then "known " ++ ",".intercalate (cls.map (·.1))
+             else "model-viol " ++ shown
+         else
+           if accImpl then "dev-ok " ++ shown else "dev-viol " ++ shown
+       | none => "skip unparsable-outcome")
+    | _, _, _, _ => "skip unresolved-input"
+  | _ => "skip bad-record"
+
 def handle (st : St) (line : String) : St × Option String :=
+  if line.startsWith "L " then (st, some (opLoop st (splitBar line))) else
   match splitBar line with
   | ("T" :: tid :: toks) :: _ =>
     match parseNode toks with
@@ -492,6 +573,7 @@ def handle (st : St) (line : String) : St × Option String :=
     | _ => (st, some "skip unknown-op")
   | parts =>
     match parts.head? with
+    | some ("L" :: _) => (st, some (opLoop st parts))
     | some ("CY" :: _) => (st, some (opCycle st parts))
     | _ => (st, some "skip malformed")
 
